@@ -566,6 +566,8 @@ CATALOGUE = {
     'equals_self_copy': (_d_equals, lambda f, a: f.equals(pickle.loads(pickle.dumps(f)), compare_dtype=a['cd'])),
     'via_str': (_d_via_str, _r_via_str),
     'iter_window_items': (_d_window, _r_window),
+    'rows_each': (_d_none, lambda f, a: [f.iloc[i] for i in range(len(f.index))]),
+    'rows_each_by_label': (_d_none, lambda f, a: [f.loc[lab] for lab in f.index] if f.index.depth == 1 and f.index.values.dtype.kind not in 'bO' else None),
     'iter_window_array': (_d_window_array, _r_window_array),
     'shift_labels_in_out': (_d_shift_labels, _r_shift_labels),
     'relabel_flat': (_d_none, lambda f, a: f.relabel_flat(index=True, columns=True) if f.index.depth > 1 and f.columns.depth > 1 else
@@ -650,7 +652,7 @@ def generate(ctx):
                                  col_kinds=['str', 'int', 'auto', 'hier2', 'negint'])
             names = rng.sample(OPS, 14)
             ctx.tally('workload', 'general')
-            if 'object' in spec.dtypes and rng.random() < 0.25:
+            if 'object' in spec.dtypes and rng.random() < 0.4:
                 # object columns holding tuples: a cell that NumPy would read as a sequence wherever an array is built from cells
                 for j, dt in enumerate(spec.dtypes):
                     if dt == 'object':
@@ -658,6 +660,7 @@ def generate(ctx):
                             if rng.random() < 0.5:
                                 spec.cells[i][j] = rng.choice([(1, 2), ('a',), (3, 4), ()])
                 ctx.tally('workload', 'tuple_cells')
+                names = list(dict.fromkeys(names + ['rows_each', 'rows_each_by_label', 'iter_tuple', 'fillna_forward', 'fillna_backward_limited']))
         ops = []
         for name in names:
             a = CATALOGUE[name][0](spec, rng)
